@@ -36,7 +36,7 @@ def _structures():
     # structures that mention the pseudo-segments ANY / ANYHL7SEGMENT / ANYZSEGMENT have no fixed shape
     allm = [(v, m) for v in T.VERSIONS for m in T.MSGS[v] if (v, m) not in out and
             all(n in T.SEGS[v] and T.seg_children(v, n) is not None for n in seg_names(T.LIBS[v].MESSAGES[m]))]
-    out += rnd.sample(allm, 376 if THOROUGH else 40)
+    out += rnd.sample(allm, 376 if THOROUGH else 20)
     return out
 
 
